@@ -1,4 +1,21 @@
-// unit base_root (C12): work in progress
+// unit base_root (C12): the PRIMITIVE square-root algorithms of dashu-base, proved UNBOUNDED:
+//   base/src/ring/root.rs   wmul32_hi;  macro fix_sqrt_error (correction loop, inlined by rule E3d from its own annotated copy);
+//                           <u64 / u32 as NormalizedRootRem>::normalized_sqrt_rem  (table RSQRT_TAB + Newton steps + margin `s -= 10` / `s -= 4`)
+//                           <u128 as NormalizedRootRem>::normalized_sqrt_rem (Karatsuba square root on top of the u64 contract)
+//                           impl_rootrem_using_normalized: SquareRootRem::sqrt_rem for u32, u64 and u128 (normalising shift)
+//   base/src/math/root.rs   impl_root_using_rootrem: SquareRoot::sqrt for u32, u64 and u128
+//   base/src/ring/div_rem.rs impl_div_rem_ops_prim: DivRem::div_rem for u64
+// Postconditions (property statement): sqrt_rem / normalized_sqrt_rem: s*s + r == n and r <= 2s (<==> s*s <= n < (s+1)^2: root
+// truncated toward zero, remainder value - root^2);  sqrt: s*s <= n < (s+1)^2.  No overflow / underflow anywhere, termination.
+// TWO explicit assumptions (lib/basering_root_est.rs, TRUSTED): `axiom_br_sq64_estimate`: the closed-form integer functions that
+// describe steps 1-5 of the u64 routine per high word n32 satisfy `br_sq64_ok` for all 3 * 2^30 classes -- established by the
+// exhaustive native run of tools/base_root_exhaust.rs, not by Verus (the margin 10 is exactly tight, no analytic bound exists);
+// `axiom_br_sq32_estimate`: the same for the u32 routine (`br_sq32_ok(n)` for all 3 * 2^30 inputs, `tools/base_root_exhaust.rs u32`).
+// Verus proves that the machine code computes those integers on the REAL table (rule E4: `//@@ CONST`, entry-wise equal to the
+// pinned copy), that the class-wise facts cover every n, the correction loop, the Karatsuba step and the wrappers.
+// Other trusted items: u128::leading_zeros (lib/div_dword_bits_64.rs), u32/u64/u128::pow, u64::overflowing_add (core).
+// The debug assertion `self.leading_zeros() <= 1` calls an exec function (not expressible by D3): dropped (drop_asserts=0) and
+// proved separately in spec form (lemma_br_norm_lz64 / lemma_br_norm_lz128) right in front of it.
 #![allow(unused_imports, unused_variables, dead_code, non_snake_case, unused_mut, unused_parens, unused_braces)]
 use vstd::prelude::*;
 use vstd::arithmetic::power2::pow2;
@@ -39,5 +56,17 @@ impl NormalizedRootRem for u128 {
 // base/src/math/root.rs `impl_root_using_rootrem!(u64, u32);` (#2), `(u128, u64)` (#3)
 //@@ FN base/ring_root/sqrt.rs variant=u64 minvoke=2 mexpect=t:u64,half:u32 mbase=t:u64,half:u32
 //@@ FN base/ring_root/sqrt.rs variant=u128 minvoke=3 mexpect=t:u128,half:u64 mbase=t:u128,half:u64
+// ---- u32 (steps 1-4 under the second explicit assumption axiom_br_sq32_estimate: exhaustive run `tools/base_root_exhaust.rs u32`)
+//@@ FN base/ring_root/wmul16_hi.rs
+//@@ FN base/ring_root/normalized_sqrt_rem_u32.rs drop_asserts=0 minline=fix_sqrt_error:base/ring_root/fix_sqrt_error.rs mconst=base/ring_root/rsqrt_tab.rs
+impl NormalizedRootRem for u32 {
+    type OutputRoot = u16;
+    open spec fn nsqrt_req(self) -> bool { self >= 0x4000_0000 }
+    open spec fn nsqrt_post(self, r: (u16, u32)) -> bool { (r.0 as int) * (r.0 as int) + r.1 as int == self as int && r.1 as int <= 2 * (r.0 as int) }
+    fn normalized_sqrt_rem(self) -> (r: (u16, u32)) { normalized_sqrt_rem_u32(self) }
+}
+// `impl_rootrem_using_normalized!(u32, u16);` / `impl_root_using_rootrem!(u32, u16);` (invocation #1)
+//@@ FN base/ring_root/sqrt_rem.rs variant=u32 minvoke=1 mexpect=t:u32,half:u16 mbase=t:u32,half:u16
+//@@ FN base/ring_root/sqrt.rs variant=u32 minvoke=1 mexpect=t:u32,half:u16 mbase=t:u32,half:u16
 } // verus!
 fn main() {}
